@@ -70,7 +70,7 @@ def build(rng, casedir, index, nrec=None, untagged=True, force_all_known=False, 
         offs = "any" if not few_anchors else rng.choice(["any", "full", "full"])
         recs.append(ggaf.make_record(g, rng, wk, f"r{index}_{i}", offsets=offs, tags=tags))
     w.walks = walks
-    w.lines = [r.line for r in recs]
+    w.lines, w.text_kind = ggaf.text_variant([r.line for r in recs], rng)
     w.mode = mode or rng.choice(["plain", "plain", "bgzf", "pysam"])
     w.layout = layout or rng.choice(["standard", "tiny", "line_start"])
     w.gaf = os.path.join(casedir, "in.gaf" + ("" if w.mode == "plain" else ".gz"))
